@@ -52,3 +52,32 @@ Example C13_example :
     (dv_step K s ([1#4; 3#4] : list QN) None MTplus (0 : QN) (1#4 : QN))
   = Some (0%nat, [(0, 0); (1, 0)]%nat).
 Proof. vm_compute. reflexivity. Qed.
+
+(* ------------------------------------------------------------------ *)
+From Coq Require Import Reals.
+From ART Require Import NumR Bounds_R DualVig_bound.
+Local Close Scope R_scope.
+
+(* last clause: each underlying category still obeys the base module's upper-vigilance bound.  Under every mode whose
+   match tracking never lowers the vigilance, an absorbing category passed a vigilance >= the configured one ... *)
+Theorem C13_absorbing_category_passed_rho :
+  forall (K : Kernel RN), k_inv K = [false] ->
+  forall (Ms : list (list (option RN))) mode eps lb veto, raising mode eps ->
+  forall l (v : list RN), length v = 1%nat ->
+    match fst (fst (dv_scan K Ms mode eps lb veto l v)) with
+    | Absorb c => exists v', length v' = 1%nat /\ vig_le v v' /\ mbin Ms mode (k_inv K) v' c = true
+    | _ => True
+    end.
+Proof. exact dv_scan_absorb_vig. Qed.
+(* ... hence, with Fuzzy ART as the base module, |w| >= rho d for every base category after every step *)
+Theorem C13_fuzzy_base_categories_obey_the_upper_bound :
+  forall (alpha beta : R), (0 <= beta <= 1)%R ->
+  forall (s : dv (N:=RN)) x veto mode eps lb s' l vl rho0 d,
+    raising mode eps -> rho (DB s) = [rho0] -> (rho0 <= 1)%R -> (0 < d)%R ->
+    @dim_original RN x = d -> Forall (fun a => (0 <= a)%R) x -> @vsum RN x = d ->
+    Forall (fz_ok rho0 d (length x)) (W (DB s)) ->
+    dv_step (@fuzzyK RN alpha beta) s x veto mode eps lb = Some (s', l, vl) ->
+    Forall (fz_ok rho0 d (length x)) (W (DB s')).
+Proof. exact dv_fuzzy_step_bound. Qed.
+Print Assumptions C13_absorbing_category_passed_rho.
+Print Assumptions C13_fuzzy_base_categories_obey_the_upper_bound.
